@@ -19,6 +19,7 @@ HANDLERS = {
     "il": ("harness.py.il_cmd", "run"),
     "asm": ("harness.py.asm_cmd", "asm"),
     "asm_seq": ("harness.py.asm_cmd", "asm_seq"),
+    "reasm": ("harness.py.asm_cmd", "reasm"),
     "info": ("harness.py.static_cmd", "info"),
     "render": ("harness.py.static_cmd", "render"),
     "exec_py": ("harness.py.exec_cmd", "run"),
